@@ -579,6 +579,107 @@ def r15_bounds_guards_and_polar_axes(idx, r):
               msg=f"`{norm(tup[0])}`: the Cartesian coordinates of a theta-R-Z cell are mirrored about the 45-degree line")
 
 
+GRID = "armi.reactor.grids.grid.Grid"
+# the accessors of a locator's OWN (local) indices: LocationBase.i/j/k/indices and their slots
+LOCAL_INDEX_ACCESSORS = ("indices", "i", "j", "k", "_i", "_j", "_k")
+
+
+def _parent_frame_grid_methods(idx):
+    """{method name: [(FuncInfo, position of the index argument among the call's positional arguments)]} for every method of the
+    Grid hierarchy that hands one of its own parameters on to THE SAME method of the parent object's grid
+    (`<...>.parent.spatialGrid.m(p)`): such an argument is read in the parent grid's frame."""
+    out = {}
+    for c in idx.subclasses(idx.cls(GRID), strict=False):
+        if ".tests" in c.module.name:
+            continue
+        for name, f in c.methods.items():
+            ps = [p for p in f.params() if p != "self"]
+            if not ps:
+                continue
+            env = single_assign_env(f.node)
+            for call in iter_calls(f.node, include_nested=False):
+                if call_attr(call) != name or not isinstance(call.func, ast.Attribute):
+                    continue
+                recv = dotted(propagate(call.func.value, env)) or ""
+                parts = recv.split(".")
+                if not (parts[0] == "self" and parts[-1] == "spatialGrid" and "parent" in parts):
+                    continue
+                for pos, a in enumerate(call.args):
+                    names = {x.id for x in ast.walk(propagate(a, env)) if isinstance(x, ast.Name)}
+                    if names & set(ps):
+                        out.setdefault(name, []).append((f, pos))
+    return out
+
+
+def _self_index_frame(e):
+    """Which of the locator's own indices does expression `e` (already propagated) carry?  -> (set of {'complete', 'local', 'other'}, text)"""
+    kinds = set()
+
+    def visit(n):
+        if isinstance(n, ast.Call) and isinstance(n.func, ast.Attribute) and isinstance(n.func.value, ast.Name) and n.func.value.id == "self":
+            kinds.add("complete" if n.func.attr == "getCompleteIndices" else "other")
+            for x in list(n.args) + [k.value for k in n.keywords]:
+                visit(x)
+            return
+        if isinstance(n, ast.Attribute) and isinstance(n.value, ast.Name) and n.value.id == "self":
+            kinds.add("local" if n.attr in LOCAL_INDEX_ACCESSORS else "other")
+            return
+        if isinstance(n, ast.Subscript) and isinstance(n.value, ast.Name) and n.value.id == "self":
+            kinds.add("local")  # LocationBase.__getitem__: (i, j, k, grid)[index]
+            visit(n.slice)
+            return
+        if isinstance(n, ast.Name) and n.id == "self":
+            kinds.add("local")  # the locator itself, read through __getitem__ by the grid
+            return
+        for x in ast.iter_child_nodes(n):
+            visit(x)
+    visit(e)
+    return kinds
+
+
+def r16_locator_queries_in_parent_frame(idx, r):
+    """'Locations in nested grids compose ... (for axial-in-radial nesting only) indices' + 'the maps between cell indices, (ring, position)
+    numbering ... and locator objects are mutually inverse': a grid method that passes its index argument on to the same method of the PARENT's
+    grid (StructuredGrid.getRingPos: an axial grid knows no rings) has that argument read in the parent grid's frame.  A locator that asks its own
+    grid such a question about ITSELF must therefore ask with its complete, parent-composed indices (getCompleteIndices()); its local indices
+    are (0, 0, k) in every assembly, i.e. the centre cell of the core.  Decided for every class of the locator hierarchy x every such method."""
+    fwd = _parent_frame_grid_methods(idx)
+    if not fwd:
+        raise AnchorMissing("no grid method forwards an index argument to the parent's grid (StructuredGrid.getRingPos expected)")
+    base = idx.cls(LOC + ".LocationBase")
+    n = 0
+    for c in idx.subclasses(base, strict=False):
+        if ".tests" in c.module.name:
+            continue
+        names = sorted({m for k in c.mro() for m in k.methods})
+        for mname in names:
+            f = c.resolve(mname)
+            env = single_assign_env(f.node)
+            for call in iter_calls(f.node, include_nested=False):
+                m = call_attr(call)
+                if m not in fwd or not isinstance(call.func, ast.Attribute):
+                    continue
+                if norm(propagate(call.func.value, env)) not in ("self.grid", "self._grid"):
+                    continue
+                for g, pos in fwd[m]:
+                    if pos >= len(call.args):
+                        raise AnalysisError(f"{f.qualname}: `{norm(call)[:80]}` has no positional argument {pos} for {g.qualname}")
+                    arg = propagate(call.args[pos], env)
+                    kinds = _self_index_frame(arg)
+                    if not kinds:
+                        continue  # indices supplied by the caller, not the locator's own
+                    key = f"{c.name}.{mname}->grid.{m}:complete-indices"
+                    n += 1
+                    if "other" in kinds or kinds == {"complete", "local"}:
+                        raise AnalysisError(f"{c.name}.{mname}: index argument `{norm(arg)[:80]}` of self.grid.{m} is neither the locator's local nor its complete indices - not understood")
+                    r.require(kinds == {"complete"}, key, f, node=call,
+                              msg=f"{c.name}.{mname} asks its grid `{norm(call)[:90]}` with the locator's LOCAL indices, and {g.qualname} passes them on unchanged to the parent's grid, "
+                                  f"which reads them in its own frame: the locator (0, 0, k) of a block in the assembly at hex cell (i, j) != (0, 0) is answered with the ring/position "
+                                  f"of the centre cell, (1, 1) - only getCompleteIndices() adds the parent's (i, j) (axial-in-radial nesting)")
+    if n < 1:
+        raise AnchorMissing(f"no locator method asks its own grid for {sorted(fwd)} about itself (IndexLocation.getRingPos expected)")
+
+
 def run(idx, chk):
     chk.explanation = (
         "C07: hex unit steps extracted as exact matrices over Q(sqrt3)[pitch]; neighbour vectors of length pitch in counter-clockwise 60-degree steps for "
@@ -614,3 +715,7 @@ def run(idx, chk):
                  necessary="ring/position <-> index conversions are mutually inverse for every axial index; a minimum ring count holds its cells")
     chk.run_rule("R07.15", "bounds helpers refuse negative indices alike; theta-R-Z to Cartesian is (r cos, r sin, z)", lambda r: r15_bounds_guards_and_polar_axes(idx, r), floor=3,
                  necessary="cell base, centre and top come from one consistent affine map of the index; conversions are mutually inverse")
+    chk.run_rule("R07.16", "a locator that asks its own grid a question the grid passes on to the parent's grid (ring/position) asks with its complete, parent-composed indices",
+                 lambda r: r16_locator_queries_in_parent_frame(idx, r), floor=3,
+                 necessary="'locations in nested grids compose by adding ... (for axial-in-radial nesting only) indices'; cell indices <-> (ring, position) <-> locator objects are "
+                           "mutually inverse for locators of nested grids: a block locator's ring/position is that of the radial cell it sits in")
